@@ -5,7 +5,7 @@ import "time"
 func init() {
 	props = append(props, prop{
 		ID: "C17", Title: "Write-buffer bound", Level: "fault_enumeration",
-		Rule:        "case = (tcp|unix) x (LT|ET|ONESHOT) x MaxWriteBufferSize in {1,100,4096,65536,70000,200000,1 MiB}; one connection, one writer, 40-300 fill/drain cycles of Write/Writev/Sendfile. Phase shim: the syscall shim gives the kernel room for exactly Budget bytes (0 while filling), so the true backlog B = accepted - handed to the kernel is known; writes are placed below, exactly at and one byte above the bound; partial and full drains in between. After every call a snapshot taken under the connection mutex is checked: counter == unsent bytes in queued buffers, <= max, == model B; overflow error only if B+n > max and then the connection is closed with ErrOverflow; B+n <= max is accepted; B+n > max accepted (exact model) = violation; after a full drain a write of exactly max is accepted. Phase real: same invariants with a paused peer and a really full socket. Finally the stream is checked with the C01 oracle. A case is non-trivial if it completed >= 1 full drain and either hit the bound or made > 10 calls; distinct by case index",
+		Rule:        "case = (tcp|unix) x (LT|ET|ONESHOT) x MaxWriteBufferSize in {1,100,4096,65536,70000,200000,1 MiB}; one connection, one writer, 40-300 fill/drain cycles of Write/Writev/Sendfile. Phase shim: the syscall shim gives the kernel room for exactly Budget bytes (0 while filling), so the true backlog B = accepted - handed to the kernel is known; writes are placed below, exactly at and one byte above the bound; partial and full drains in between. After every call a snapshot taken under the connection mutex is checked: counter == unsent bytes in queued buffers, <= max, == model B; overflow error only if B+n > max and then the connection is closed with ErrOverflow; B+n <= max is accepted; B+n > max accepted (exact model) = violation; after a full drain a write of exactly max is accepted. Phase real: same invariants with a paused peer and a really full socket. Finally the stream is checked with the C01 oracle. A case is non-trivial if it completed >= 1 full drain and either hit the bound or made > 10 calls; distinct by case index. The clause \"a write that fits is always accepted\" also covers transient refusals: a Write/Writev that fits the budget and returns EAGAIN/EINTR to the caller (instead of caching its input) is a violation (fitting-write-not-accepted)",
 		Assumptions: append([]string{"file ranges queued by Sendfile are not counted against the bound (they hold no memory); 'fits' means backlog + n <= max at call time, as the implementation defines it"}, commonAssumptions...),
 		Phases: []phase{
 			{Name: "shim", Pkg: "./workers/c17", Shim: true, QuickShards: 12, ThorShards: 16, QuickTO: 6 * time.Minute},
